@@ -443,6 +443,9 @@ func (v *Verifier) writeEvidence(prop, tier string, seed int, runs map[string]*F
 		"lemmas marked 'assumed' are used without a machine-checked proof; 'lean-proved' ones are checked by Lean 4 + Mathlib (lemmas/build.sh)",
 	}
 	for _, a := range v.specs.Assumes {
+		if strings.HasPrefix(a, "hash_no_x_collision") && !contains(names, "secp256k1.HashToGroup") {
+			continue
+		}
 		assumptions = append(assumptions, "contract assumption: "+a)
 	}
 	for _, e := range engineErrs {
